@@ -127,6 +127,8 @@ def gen_live(rng, flavour):
     sc["faults"] = faults
     if side.random() < 0.4:
         sc["split_ocm"] = True  # the order stream reports the bets of one request in separate messages
+    if side.random() < 0.2:
+        sc["yield_pct"] = side.choice([30, 70])  # a pool thread may be suspended between two instruction reports of a reply
     if side.random() < 0.35:
         # nothing orders the pool thread and the submitting thread: in these sessions a submitted request may run - up to
         # the processing of its reply - before submit() returns to the main loop
